@@ -8,6 +8,10 @@ A value is a tree:
   `kids` are the fields of the struct / of the active variant in declaration order, each with its
   optional field-level hook.  `data` stands for everything else the node stores (variant index,
   payload) so that a mutating callback has something to change.
+  A `Vec` field carrying a field-level hook is also a `node`, without type-level hook, whose `kids`
+  are the elements, each with that hook: for such a field the derive emits
+  `for item in field { pre_fh(item)?; item.visit(visitor)?; post_fh(item)?; }`, which is the body below
+  with no `pre_h`/`post_h` (built by `Model/Reflect.lean: hookedVec`).
 * `seq xs` – `Option` (0 or 1 element), `Vec`, `Box` (1 element): elements visited in order.
 * `leaf d` – the `visit_noop!` types (numbers, `String`, `bool`, `char`): no callbacks.
 
